@@ -120,19 +120,21 @@ std::vector<Pair> make_pairs(const ct::Op &op, size_t publen, Rng &r, bool thoro
         }
         return v;
     }
-    if (kind == "padpos") {          // marker position within the final 16-byte block
+    size_t bs = 16; { size_t colon = kind.find(':'); if (colon != std::string::npos) { bs = (size_t) atoi(kind.c_str() + colon + 1); kind = kind.substr(0, colon); } }
+    if (kind == "padpos") {          // marker position within the final block (16 bytes, or the block size given after the colon)
+        if (L < bs) return v;
         for (int i = 0; i < (thorough ? 16 : 6); i++) {
-            size_t p1 = r.below(16), p2 = (p1 + 1 + r.below(15)) % 16;
+            size_t p1 = r.below(bs), p2 = (p1 + 1 + r.below(bs - 1)) % bs;
             Bytes a = rnd(L), b = a;
-            for (size_t k = L - 16 + p1; k < L; k++) a[k] = 0; a[L - 16 + p1] = 0x80;
-            for (size_t k = L - 16 + p2; k < L; k++) b[k] = 0; b[L - 16 + p2] = 0x80;
+            for (size_t k = L - bs + p1; k < L; k++) a[k] = 0; a[L - bs + p1] = 0x80;
+            for (size_t k = L - bs + p2; k < L; k++) b[k] = 0; b[L - bs + p2] = 0x80;
             v.push_back(Pair{ a, b, "marker@" + std::to_string(p1) + "-vs-" + std::to_string(p2) });
         }
         return v;
     }
     if (kind == "padlen") {
         for (int i = 0; i < (thorough ? 16 : 6); i++) {
-            size_t base = publen / 16 * 16, p1 = r.below(16), p2 = (p1 + 1 + r.below(15)) % 16; Bytes a = rnd(L);
+            size_t base = publen / bs * bs, p1 = r.below(bs), p2 = (p1 + 1 + r.below(bs - 1)) % bs; Bytes a = rnd(L);
             Pair p{ a, a, "unpadded-len@" + std::to_string(p1) + "-vs-" + std::to_string(p2) }; p.p1 = base + p1; p.p2 = base + p2; v.push_back(p);
         }
         return v;
